@@ -172,3 +172,10 @@ def check(run):
     r5_codes(run, F)
     r6_generator(run, F)
     r7_order(run, F)
+    if run.tier == "thorough":
+        # the scoper is compiled in both configurations: repeat the configuration-independent rules on cfg A
+        FA = run.facts("A")
+        run.key_prefix = "cfgA:"
+        for fn in (r1_balance, r2_reverse, r3_lookup, r4_arms, r5_codes, r7_order):
+            fn(run, FA)
+        run.key_prefix = ""
